@@ -85,8 +85,11 @@ def handle (toks : List String) : String :=
       s!"ok {toHex r} " ++ "|".intercalate (ls.map fun ((v, s), p) => s!"{v}:{toHex s}:{toHex p}")
     | none => "bad-op"
   | ["leafhash", v, s] =>
-    match v.toNat?, fromHex? s with
-    | some v, some s => if v < 256 then s!"ok {toHex (leafHash TH v s)}" else "bad-op"
+    match parseInt? v, fromHex? s with
+    | some v, some s =>
+      match leafHashPub TH v s with
+      | .ok h => s!"ok {toHex h}"
+      | .error e => rErr e
     | _, _ => "bad-op"
   | ["outpub", sec, t] =>
     match optHex? sec, optTree? t with
